@@ -7,6 +7,7 @@ package main
 // count for a table), runs the public API call that reaches the site on the real library and prints
 // a canonical outcome; the Lean driver evaluates the model of the site on the same values.
 //
+//   ic  <vm> <nBk> <rcLen> <v> <nRv>            GetPictures on a cell image cell (getImageCellRel: value metadata / rich value indices)
 //   gr  <0/1 per row>                           GetRows: rows r=1..n, empty or with a value; number of rows returned
 //   bs  <hex>                                   bstrUnmarshal (hook VerifBstrUnmarshal): result bytes
 //   st  <idx> <nXf> <fillP> <fillId> <nFills> <borderP> <borderId> <nBorders> <fontP> <fontId> <nFonts>   GetStyle
@@ -475,6 +476,47 @@ func (c *c14Ctx) opAG(a c14Ag) {
 	}
 }
 
+func (c *c14Ctx) opIC(vm uint64, nBk, rcLen, v, nRv int) {
+	c14SiteInit()
+	sheet := `<?xml version="1.0" encoding="UTF-8" standalone="yes"?><worksheet ` + c14NS + `><sheetData><row r="1">` +
+		fmt.Sprintf(`<c r="A1" t="e" vm="%d"><v>#VALUE!</v></c>`, vm) + `</row></sheetData></worksheet>`
+	meta := `<?xml version="1.0" encoding="UTF-8" standalone="yes"?><metadata ` + c14NS + `>`
+	if nBk >= 0 {
+		meta += fmt.Sprintf(`<valueMetadata count="%d">`, nBk) + c14Rep(`<bk>`+c14Rep(fmt.Sprintf(`<rc t="1" v="%d"/>`, v), rcLen)+`</bk>`, nBk) + `</valueMetadata>`
+	}
+	meta += `</metadata>`
+	rv := `<?xml version="1.0" encoding="UTF-8" standalone="yes"?><rvData xmlns="http://schemas.microsoft.com/office/spreadsheetml/2017/richdata" count="` +
+		strconv.Itoa(nRv) + `">` + c14Rep(`<rv s="0"><v>0</v></rv>`, nRv) + `</rvData>`
+	parts := make([]c14Part, len(c14SiteBase.plain))
+	copy(parts, c14SiteBase.plain)
+	for i := range parts {
+		if parts[i].name == "xl/worksheets/sheet1.xml" {
+			parts[i].data = []byte(sheet)
+		}
+	}
+	parts = append(parts, c14Part{"xl/metadata.xml", []byte(meta)}, c14Part{"xl/richData/rdrichvalue.xml", []byte(rv)})
+	res := c14Open(c14WriteZip(parts), func(f *xl.File) string {
+		if _, err := f.GetPictures("Sheet1", "A1"); err != nil {
+			return "ERR"
+		}
+		return "ok"
+	})
+	op := fmt.Sprintf("ic %d %d %d %d %d", vm, nBk, rcLen, v, nRv)
+	ln := c.r.Op(op, res)
+	c.r.Case(op, true)
+	c.r.Stat("ic:" + c14Class(res))
+	if res == "PANIC" {
+		sig := "panic:getImageCellRel:other"
+		switch {
+		case vm == 0:
+			sig = "panic:getImageCellRel:vm-zero"
+		case v < 0:
+			sig = "panic:getImageCellRel:negative-rich-value-index"
+		}
+		c.r.Fail(sig, fmt.Sprintf("GetPictures panics in getImageCellRel: cell vm=%d, %d metadata blocks with %d records v=%d, %d rich values", vm, nBk, rcLen, v, nRv), ln, op)
+	}
+}
+
 func (c *c14Ctx) opGR(flags string) {
 	c14SiteInit()
 	var sb strings.Builder
@@ -537,6 +579,19 @@ func c14GenBS(c *c14Ctx, rng *Rng, thorough bool) {
 // c14GenSites: boundary-heavy decoded values for every site.
 func c14GenSites(c *c14Ctx, rng *Rng, fx []*c14Fixture, thorough bool) {
 	c14GenBS(c, rng, thorough)
+	for _, vm := range []uint64{0, 1, 2, 3, 4294967295} {
+		for _, nBk := range []int{-1, 0, 1, 2} {
+			for _, rc := range []int{0, 1} {
+				for _, v := range []int{-9223372036854775808, -1, 0, 1, 2} {
+					for _, nRv := range []int{0, 1, 2} {
+						if rng.Chance(40) || (vm <= 1 && nBk == 1 && rc == 1 && nRv == 1) {
+							c.opIC(vm, nBk, rc, v, nRv)
+						}
+					}
+				}
+			}
+		}
+	}
 	for _, fl := range []string{"", "0", "1", "00", "01", "10", "11", "0001", "1000", "0100010", "1111", "0000", "10000001"} {
 		c.opGR(fl)
 	}
